@@ -160,6 +160,7 @@ func walkTokens(c *fw.Ctx, alpha []tokSym, maxLen int, visit func(tc tokCase)) (
 // symbol of ext (and by that symbol followed by ';'): the text stays dead at
 // the same token, so the first diagnostic must not move.
 func walkTokensExt(c *fw.Ctx, alpha []tokSym, maxLen int, ext []tokSym, visit func(tc tokCase)) (viable, dead, ood int64) {
+	repeatDead := ext != nil && len(ext) == 0 // an empty, non-nil ext selects the repeat / all-symbol extensions
 	if err := loadGrammars(); err != nil {
 		c.HarnessError("grammar: " + err.Error())
 		return
@@ -240,6 +241,21 @@ func walkTokensExt(c *fw.Ctx, alpha []tokSym, maxLen int, ext []tokSym, visit fu
 					c.R.Transitions += 2
 					visit(tokCase{Syms: append(append([]tokSym{}, seq...), s, u), Accepted: false, Dead: d})
 					visit(tokCase{Syms: append(append([]tokSym{}, seq...), s, u, tokSym{"SEMICOLON", ";"}), Accepted: false, Dead: d})
+				}
+				if repeatDead {
+					// the offending token once and twice more (error recovery meets an equal token again),
+					// and, for short sequences, every symbol of the alphabet after the dead token
+					c.R.States += 2
+					c.R.Transitions += 2
+					visit(tokCase{Syms: append(append([]tokSym{}, seq...), s, s), Accepted: false, Dead: d})
+					visit(tokCase{Syms: append(append([]tokSym{}, seq...), s, s, s), Accepted: false, Dead: d})
+					if d+1 <= 3 {
+						for _, u := range alpha {
+							c.R.States++
+							c.R.Transitions++
+							visit(tokCase{Syms: append(append([]tokSym{}, seq...), s, u), Accepted: false, Dead: d})
+						}
+					}
 				}
 			}
 		}
